@@ -8,14 +8,16 @@ for s in $MUTS; do
   d=/verif/mutants/$s; w=/tmp/wm-$s
   git -C /repo worktree remove --force $w 2>/dev/null
   git -C /repo worktree add -q --detach $w HEAD && (cd $w && git apply $d/patch.diff) || { echo "$s: patch does not apply" | tee $d/detection.txt; git -C /repo worktree remove --force $w 2>/dev/null; continue; }
-  b=$(python3 /verif/baseline_check.py $w | head -1)
+  # the baseline verdict of a mutant is re-used when it was established before (BASELINE=1 forces a rerun)
+  b=$(grep -m1 "^baseline:" $d/detection.txt 2>/dev/null | sed 's/^baseline: //')
+  if [ -z "$b" ] || [ -n "$BASELINE" ]; then b=$(python3 /verif/baseline_check.py $w | head -1); fi
   echo "baseline: $b" > $d/detection.txt
   for p in $(cat $d/checks.txt); do
     VERIF_REPO=$w VERIF_EVIDENCE_DIR=/tmp/out/mut /verif/check $p quick > /tmp/out/mut/$s.$p.log 2>&1; rc=$?
     lab=$(grep -m2 "^  assertion" /tmp/out/mut/$s.$p.log | sed 's/^  assertion \([^ ]*\) fails in \([^;]*\);.*/\1 (\2)/' | tr '\n' ';')
     echo "$p quick exit=$rc $lab" >> $d/detection.txt
   done
-  git -C /repo worktree remove --force $w
+  git -C /repo worktree remove --force $w || rm -rf $w
   echo "== $s"; cat $d/detection.txt
 done
 echo MUTDONE
